@@ -504,7 +504,7 @@ func runPair(sc *streamScenario, rec *recorder) {
 	}
 	seen := map[int]int{}
 	unitOfCDG := map[string]int{}
-	dgOfCDG := map[string]string{} // the whole delivered value (first packet included) of every clean delivery
+	dgOfCDG := map[string]map[string]bool{} // the whole delivered values (first packet included) of the clean deliveries with that content
 	one := func(run string, stream []byte) {
 		dmx := newDemuxer(bytes.NewReader(stream), sc.Run)
 		drainData(dmx, len(stream)/188+len(bs.units)*4+10, func() int { return 0 }, func(e M) {
@@ -519,13 +519,18 @@ func runPair(sc *streamScenario, rec *recorder) {
 					}
 					seen[pid]++
 					unitOfCDG[key] = u
-					dgOfCDG[key], _ = e["dg"].(string)
+					if dgOfCDG[key] == nil {
+						dgOfCDG[key] = map[string]bool{}
+					}
+					if dg, ok := e["dg"].(string); ok {
+						dgOfCDG[key][dg] = true // (several units of a PID may have the same content: every one of them is a legitimate match)
+					}
 					e["u"] = u
 				} else {
 					e["u"] = unitOfCDG[key]
 					if want, ok := dgOfCDG[key]; ok {
 						got, _ := e["dg"].(string)
-						e["fpsame"] = got == want // the unit's first packet (header, adaptation field) is the clean run's too
+						e["fpsame"] = want[got] // the unit's first packet (header, adaptation field) is the clean run's too
 					}
 				}
 			}
